@@ -610,4 +610,175 @@ def wrapDoc : Doc :=
     crlf := false, endsNl := true }
 
 
+/-! ## the alignment and wrapping passes leave verbatim lines alone -/
+
+/-- `y` is `x` except possibly for its text, and the text is kept when `x` is verbatim. -/
+def SameBut (x y : OutLine) : Prop :=
+  y.inVar = x.inVar ∧ y.colon = x.colon ∧ y.skipAlign = x.skipAlign ∧ (x.verbatim = true → y.text = x.text)
+
+theorem SameBut.refl (x : OutLine) : SameBut x x := ⟨rfl, rfl, rfl, fun _ => rfl⟩
+
+theorem SameBut.setText (x : OutLine) (t : Text) (h : x.verbatim = false) : SameBut x { x with text := t } :=
+  ⟨rfl, rfl, rfl, fun hv => by rw [h] at hv; exact absurd hv (by simp)⟩
+
+theorem SameBut.verbatim_eq {x y : OutLine} (h : SameBut x y) : y.verbatim = x.verbatim := by
+  unfold OutLine.verbatim; rw [h.2.2.1, h.2.1]
+
+theorem SameBut.trans {x y z : OutLine} (h1 : SameBut x y) (h2 : SameBut y z) : SameBut x z :=
+  ⟨h2.1.trans h1.1, h2.2.1.trans h1.2.1, h2.2.2.1.trans h1.2.2.1,
+   fun hv => (h2.2.2.2 (by rw [h1.verbatim_eq]; exact hv)).trans (h1.2.2.2 hv)⟩
+
+inductive Rel : List OutLine → List OutLine → Prop
+  | nil : Rel [] []
+  | cons {x y xs ys} : SameBut x y → Rel xs ys → Rel (x :: xs) (y :: ys)
+
+theorem Rel.refl (l : List OutLine) : Rel l l := by
+  induction l with
+  | nil => exact Rel.nil
+  | cons x xs ih => exact Rel.cons (SameBut.refl x) ih
+
+theorem Rel.append {a b c d : List OutLine} (h1 : Rel a b) (h2 : Rel c d) : Rel (a ++ c) (b ++ d) := by
+  induction h1 with
+  | nil => exact h2
+  | cons hs _ ih => exact Rel.cons hs ih
+
+theorem Rel.map (f : OutLine → OutLine) (l : List OutLine) (h : ∀ x ∈ l, SameBut x (f x)) : Rel l (l.map f) := by
+  induction l with
+  | nil => exact Rel.nil
+  | cons x xs ih => exact Rel.cons (h x (by simp)) (ih (fun y hy => h y (by simp [hy])))
+
+theorem Rel.trans {a b c : List OutLine} (h1 : Rel a b) (h2 : Rel b c) : Rel a c := by
+  induction h1 generalizing c with
+  | nil => cases h2; exact Rel.nil
+  | cons hs _ ih =>
+    cases h2 with
+    | cons hs2 hr2 => exact Rel.cons (hs.trans hs2) (ih hr2)
+
+theorem Rel.filter_verbatim {a b : List OutLine} (h : Rel a b) :
+    (a.filter (·.verbatim)).map (·.text) = (b.filter (·.verbatim)).map (·.text) := by
+  induction h with
+  | nil => rfl
+  | @cons x y xs ys hs _ ih =>
+    simp only [List.filter_cons, hs.verbatim_eq]
+    cases hv : x.verbatim with
+    | false => simpa using ih
+    | true =>
+      simp only [if_true, List.map_cons, ih, hs.2.2.2 hv]
+
+theorem mem_takeWhile_prop {α} (p : α → Bool) (l : List α) (x : α) (h : x ∈ l.takeWhile p) : p x = true := by
+  induction l with
+  | nil => simp at h
+  | cons y ys ih =>
+    by_cases hp : p y = true
+    · simp only [List.takeWhile_cons, hp, if_true, List.mem_cons] at h
+      rcases h with h | h
+      · rw [h]; exact hp
+      · exact ih h
+    · simp [hp] at h
+
+theorem takeWhile_append_drop_length {α} (p : α → Bool) (l : List α) :
+    l.takeWhile p ++ l.drop (l.takeWhile p).length = l := by
+  induction l with
+  | nil => simp
+  | cons y ys ih =>
+    by_cases hp : p y = true
+    · simp only [List.takeWhile_cons, hp, if_true, List.length_cons, List.drop_succ_cons, List.cons_append]
+      rw [ih]
+    · simp [hp]
+
+theorem rel_alignVarColons_go (fuel : Nat) (ls : List OutLine) : Rel ls (alignVarColons.go ls fuel) := by
+  induction fuel generalizing ls with
+  | zero =>
+    cases ls with
+    | nil => unfold alignVarColons.go; exact Rel.nil
+    | cons o rest => unfold alignVarColons.go; exact Rel.refl _
+  | succ n ih =>
+    cases ls with
+    | nil => unfold alignVarColons.go; exact Rel.nil
+    | cons o rest =>
+      unfold alignVarColons.go
+      split
+      · exact Rel.cons (SameBut.refl o) (ih rest)
+      · have hsplit : (o :: rest) =
+            (o :: rest).takeWhile alignVarColons.inGroup ++ (o :: rest).dropWhile alignVarColons.inGroup :=
+          (List.takeWhile_append_dropWhile).symm
+        simp only []
+        conv => lhs; rw [hsplit]
+        apply Rel.append _ (ih _)
+        split
+        · exact Rel.refl _
+        · apply Rel.map
+          intro x _
+          split
+          · rename_i c hc
+            split
+            · exact SameBut.refl x
+            · apply SameBut.setText
+              unfold OutLine.verbatim
+              simp [hc]
+          · exact SameBut.refl x
+
+theorem rel_alignAssignOps_go (fuel : Nat) (ls : List OutLine) : Rel ls (alignAssignOps.go ls fuel) := by
+  induction fuel generalizing ls with
+  | zero =>
+    cases ls with
+    | nil => unfold alignAssignOps.go; exact Rel.nil
+    | cons o rest => unfold alignAssignOps.go; exact Rel.refl _
+  | succ n ih =>
+    cases ls with
+    | nil => unfold alignAssignOps.go; exact Rel.nil
+    | cons o rest =>
+      unfold alignAssignOps.go
+      split
+      · exact Rel.cons (SameBut.refl o) (ih rest)
+      · rename_i hsk
+        split
+        · exact Rel.cons (SameBut.refl o) (ih rest)
+        · rename_i op0 hop
+          simp only []
+          generalize hP : (fun (x : OutLine) =>
+            !x.skipAlign && leadingWs x.text == leadingWs o.text && (findAssignOp x.text).isSome) = P
+          have hsplit := takeWhile_append_drop_length P rest
+          have : o :: rest = (o :: rest.takeWhile P) ++ rest.drop (rest.takeWhile P).length := by
+            simp [hsplit]
+          conv => lhs; rw [this]
+          apply Rel.append _ (ih _)
+          apply Rel.map
+          intro x hx
+          have hxs : x.skipAlign = false := by
+            rcases List.mem_cons.mp hx with h | h
+            · rw [h]; simpa using hsk
+            · have := mem_takeWhile_prop P rest x h
+              rw [← hP] at this
+              simp only [Bool.and_eq_true, Bool.not_eq_true'] at this
+              exact this.1.1
+          have hxv : x.verbatim = false := by unfold OutLine.verbatim; simp [hxs]
+          split
+          · split
+            · exact SameBut.setText x _ hxv
+            · exact SameBut.refl x
+          · exact SameBut.refl x
+
+theorem rel_alignedLines (cfg : Config) (ls : List OutLine) : Rel ls (alignedLines cfg ls) := by
+  unfold alignedLines
+  cases cfg.alignVar <;> cases cfg.alignAsg
+  · exact Rel.refl _
+  · exact rel_alignAssignOps_go _ _
+  · exact rel_alignVarColons_go _ _
+  · exact (rel_alignVarColons_go _ _).trans (rel_alignAssignOps_go _ _)
+
+theorem sublist_filter_flatMap {α β} (p : α → Bool) (f : α → β) (g : α → List β) (l : List α)
+    (h : ∀ x, p x = true → g x = [f x]) : ((l.filter p).map f).Sublist (l.flatMap g) := by
+  induction l with
+  | nil => simp
+  | cons x xs ih =>
+    simp only [List.filter_cons, List.flatMap_cons]
+    cases hp : p x with
+    | false =>
+      simp only [Bool.false_eq_true, if_false]
+      exact List.Sublist.trans ih (List.sublist_append_right _ _)
+    | true =>
+      simp only [if_true, List.map_cons, h x hp, List.singleton_append]
+      exact List.Sublist.cons_cons _ ih
+
 end TrustVerif.C15
